@@ -142,6 +142,31 @@ CLAIMED = {
         note="Empty namespace fields are not asserted either way (the statement speaks of requests that name a different namespace).",
         technique="bounded-exhaustive enumeration of descriptor paths x name classes through the real interceptor chain and a running proxy",
         design_ref="5/C16", engine="B-enum"),
+    "C17": dict(
+        level="exploration",
+        text="Bounded-exhaustive enumeration against a wire-level reference (descriptor-driven parser/re-encoder, independent of the legacy "
+             "structs): for each of the 172 request/response types the proxy can down-convert, the legacy-restricted fully populated "
+             "message; its encoding, every truncation, every byte position x {0x00,0x80,0xC0,0xFF,b^1}, every string occurrence x five "
+             "invalid sequences x {insert (lengths re-encoded), overwrite}, all failure messages at once, first failure message + each "
+             "other string, failure chains of length 1..12, repairable inputs also delivered as several buffers. Oracle: standard codec "
+             "accepts => same message; only failure messages invalid within the supported chain length => success and equality with the "
+             "standard decode of the sanitised bytes; otherwise an error, never a message. History-blob path: every event-bearing blob "
+             "field x every failure path inside a History through the translator: repaired blob decodes and equals the sanitised history; "
+             "unfixable blob => error and message unchanged.",
+        note="Domain = messages from an older server: equality is taken modulo fields the legacy schema does not know. Byte alphabet of five "
+             "values per position; first 1500 bytes of each encoding in quick (20000 in thorough).",
+        technique="bounded-exhaustive enumeration of wire mutations against a wire-level reference decoder",
+        design_ref="5/C17", engine="B-enum"),
+    "C18": dict(
+        level="exploration",
+        text="Bounded-exhaustive enumeration: for every down-convertible root type every structural path from the descriptors (oneofs, "
+             "repeated fields, History events, commands, mutable-state snapshots; each type at most twice) to a field of type Failure that "
+             "the legacy schema also knows, x chain depth 1..10 (invalid UTF-8 exactly at that depth: must be repaired, result equals the "
+             "sanitised reference, every string valid) and 11 (error or correct repair); plus all failure messages of the fully populated "
+             "message at once. Paths the legacy schema lacks are counted and listed, not asserted.",
+        note="Same reference and domain restriction as C17.",
+        technique="bounded-exhaustive enumeration of (type, path, depth) against a wire-level reference",
+        design_ref="5/C18", engine="B-enum"),
     "C20": dict(
         level="model_checking",
         text="Bounded-exhaustive histories of stream opens on the real StreamWorkflowReplicationMessages handler with the real "
@@ -210,7 +235,7 @@ def main():
         "engines": [
             {"name": "B-seq", "path": "/verif/harness", "serves_properties": ["C05"],
              "kind_free_text": "explicit-state / bounded-exhaustive enumeration driving the real code in-package"},
-            {"name": "B-enum", "path": "/verif/harness", "serves_properties": ["C07", "C12", "C13", "C14", "C15", "C16"],
+            {"name": "B-enum", "path": "/verif/harness", "serves_properties": ["C07", "C12", "C13", "C14", "C15", "C16", "C17", "C18"],
              "kind_free_text": "bounded-exhaustive enumeration of a finite structurally defined input space against a reference computed independently"},
             {"name": "A-macro", "path": "/verif/harness/proxy/routing_*.go + /verif/rt/pool.go", "serves_properties": ["C01", "C02", "C03", "C04", "C06", "C20"],
              "kind_free_text": "explicit-state BFS whose transitions are executions of the real goroutines in testing/synctest bubbles; "
